@@ -57,6 +57,26 @@ impl Tls {
     }
 }
 
+/// Verification hook (compiled only with `--cfg bgpfu_verif`): `Tls::connect` is crate-private.
+#[cfg(bgpfu_verif)]
+impl Tls {
+    #[allow(missing_docs, clippy::missing_errors_doc)]
+    pub async fn verif_connect<A, S>(
+        addr: A,
+        server_name: S,
+        ca_cert: CertificateDer<'_>,
+        client_cert: CertificateDer<'static>,
+        client_key: PrivateKeyDer<'static>,
+    ) -> Result<Self, Error>
+    where
+        A: ToSocketAddrs + Debug + Send,
+        S: TryInto<ServerName<'static>> + Debug + Send,
+        Error: From<S::Error>,
+    {
+        Self::connect(addr, server_name, ca_cert, client_cert, client_key).await
+    }
+}
+
 impl Transport for Tls {
     type SendHandle = Sender;
     type RecvHandle = Receiver;
